@@ -1300,6 +1300,19 @@ def ts_words(bench, kind, rng, cfg=0):
     sw = bench.set_words
     L = len(sw)
     out = []
+    if kind.startswith("f"):      # fragment: the first j words of a set, then one foreign word (not set-aligned)
+        j = int(kind[1:])
+        frag = [{"d": list(sw[k]["d"]), "c": sw[k]["c"], "v": True} for k in range(j)]
+        if bench.has_cfg and j > 1:
+            frag[1]["d"][1] = cfg
+        x = word(rng.getrandbits(32) | 0x01000000, 0)
+        return frag + [x if x["d"] != sw[j]["d"] else word(0x01020304, 0)]
+    if kind.startswith("g"):      # truncated set: the first j words only -- the next set's first word breaks it
+        j = int(kind[1:])
+        frag = [{"d": list(sw[k]["d"]), "c": sw[k]["c"], "v": True} for k in range(j)]
+        if bench.has_cfg and j > 1:
+            frag[1]["d"][1] = cfg
+        return frag
     for k in range(L):
         w = {"d": list(sw[k]["d"]), "c": sw[k]["c"], "v": True}
         if bench.has_cfg and k == 1:
@@ -1310,6 +1323,8 @@ def ts_words(bench, kind, rng, cfg=0):
         elif kind == "x":
             w["d"] = [b ^ 0x5A for b in w["d"]]
             w["c"] = 1 if k == 0 else 0
+        elif kind == "n0" and k == 0:           # first word with the right symbols but the wrong K flags
+            w["c"] = rng.choice([c for c in (0b1111, 0b0001, 0b0111, 0b0000) if c != sw[0]["c"]])
         elif kind.startswith("n") and k == int(kind[1:]):
             if rng.random() < 0.6:
                 w["d"][3 if (bench.has_cfg and k == 1) else rng.randrange(4)] ^= 1 << rng.randrange(8)
@@ -1341,7 +1356,7 @@ def ts_detector_stream(rng, bench, det_n, events, hazards=()):
     def emit_set(kind, cfg, gp):
         nonlocal counting, after_break, gapped
         ws = ts_words(bench, kind, rng, cfg)
-        first_matches = kind != "x"
+        first_matches = kind not in ("x", "n0")
         if after_break and first_matches and "adjacent" not in hazards:
             gap(1)
         if counting and gapped and not first_matches and "gap_foreign" not in hazards:
@@ -1350,8 +1365,8 @@ def ts_detector_stream(rng, bench, det_n, events, hazards=()):
         for k, w in enumerate(ws):
             out.append(w)
             gapped = False
-            breaking = (kind == "o" and k == 1) or (kind == "x" and k == 0 and counting) or \
-                       (kind.startswith("n") and k == int(kind[1:]))
+            breaking = (kind == "o" and k == 1) or (kind in ("x", "n0") and k == 0 and counting) or \
+                       (kind.startswith("n") and kind != "n0" and k == int(kind[1:]))
             after_break = breaking
             if breaking:
                 counting = False
@@ -1359,7 +1374,7 @@ def ts_detector_stream(rng, bench, det_n, events, hazards=()):
                 gap(rng.choice([1, 1, 2, 4]))
         if kind == "m":
             counting = True
-    kinds = ["m", "o", "x"] + ["n%d" % k for k in range(1, L)]
+    kinds = ["m", "o", "x"] + ["n%d" % k for k in range(0, L)]
     for ev in range(events):
         r = rng.random()
         c = rng.choice([0, 1, 4, 8, 9, 13]) if bench.has_cfg else 0
@@ -1377,6 +1392,21 @@ def ts_detector_stream(rng, bench, det_n, events, hazards=()):
                 emit_set(rng.choice(kinds[1:]), c, gp)
                 if rng.random() < 0.4 and (not counting or "gap_foreign" in hazards):
                     gap(rng.choice([1, 2]))
+        elif r < 0.93 and "adjacent" in hazards:
+            # truncated set: its first j words, the next set's first word arriving in place of word j + 1
+            for w in ts_words(bench, "g%d" % rng.randrange(1, L), rng, c):
+                out.append(w)
+            counting, gapped = False, False
+            for _ in range(rng.choice([1, det_n])):
+                emit_set("m", c, 0.0)
+        elif r < 0.96 and not (after_break and "adjacent" not in hazards):
+            # fragment of a set cut off by a foreign word, the next set following directly
+            j = rng.randrange(1, L)
+            for w in ts_words(bench, "f%d" % j, rng, c):
+                out.append(w)
+            after_break, gapped, counting = True, False, False
+            if "adjacent" not in hazards:
+                gap(1)
         else:   # stray foreign word, not set-aligned
             if counting and gapped and "gap_foreign" not in hazards:
                 continue
@@ -1460,8 +1490,9 @@ def check_C43(rep):
                "kind, near-miss sets, foreign words, set-aligned or not, behind an idle gap or not) and starts a new set "
                "if it is a first word; not-valid words are ignored everywhere")
 
-    for sub, label in ([({"SetWords": "TinyWords", "FirstCtrl": 15, "HasCfg": "TRUE", "DetN": 2, "MaxSets": 4, "MaxGaps": 1, "MaxStray": 1}, "2-word sets of 4 kinds, x2"),
-                        ({"SetWords": "TS2Words", "FirstCtrl": 15, "HasCfg": "TRUE", "DetN": 2, "MaxSets": 3, "MaxGaps": 1, "MaxStray": 0}, "TS2-shaped sets of 4 kinds, x2")]
+    for sub, label in ([({"SetWords": "TinyWords", "FirstCtrl": 15, "HasCfg": "TRUE", "DetN": 2, "MaxSets": 4, "MaxGaps": 1, "MaxStray": 1}, "2-word sets of 5 kinds, x2"),
+                        ({"SetWords": "TS2Words", "FirstCtrl": 15, "HasCfg": "TRUE", "DetN": 2, "MaxSets": 3, "MaxGaps": 1, "MaxStray": 0}, "TS2-shaped sets of 5 kinds, x2"),
+                        ({"SetWords": "TinyWords", "FirstCtrl": 1, "HasCfg": "FALSE", "DetN": 1, "MaxSets": 3, "MaxGaps": 1, "MaxStray": 1}, "2-word sets, one K symbol in the first word (TSEQ-like), x1")]
                        + ([] if quick else [({"SetWords": "TinyWords", "FirstCtrl": 15, "HasCfg": "TRUE", "DetN": 2, "MaxSets": 5, "MaxGaps": 1, "MaxStray": 1}, "2-word sets, 5 sets"),
                                             ({"SetWords": "TinyWords", "FirstCtrl": 15, "HasCfg": "TRUE", "DetN": 3, "MaxSets": 5, "MaxGaps": 2, "MaxStray": 0}, "2-word sets x3")])):
         _mc(rep, "MCTsDetector", tlc.render_cfg(_cfg("MCTsDetector.cfg.tmpl"), sub), "MCTsDetector (%s)" % label, sub,
@@ -1471,7 +1502,7 @@ def check_C43(rep):
         _mc(rep, "MCTsEmitter", tlc.render_cfg(_cfg("MCTsEmitter.cfg.tmpl"), sub), "MCTsEmitter (%s)" % label, sub)
 
     configs = [("TS2Words", 3, 2), ("TS2Words", 16, 8), ("TS1Words", 16, 8), ("TS1Words", 2, 3), ("TS1InvWords", 2, 8),
-               ("TSEQWords", 3, 32), ("TSEQWords", 2, 2)]
+               ("TSEQWords", 3, 32), ("TSEQWords", 2, 2), ("TSEQWords", 1, 1)]
     if not quick:
         configs += [("TS2Words", 5, 3), ("TS1Words", 1, 1), ("TSEQWords", 64, 4)]
     for set_name, emit_n, det_n in configs:
@@ -1493,10 +1524,11 @@ def check_C43(rep):
             st = ts_emitter_stim(rng, L, emit_n, bursts=rng.randrange(1, 4), has_cfg=bench.has_cfg)
             add(bench.run(st, loop=True), "emitter->detector")
             # detector on streams composed of whole sets of several kinds, gaps, stray words
-            feed(ts_detector_stream(rng, bench, det_n, events=rng.randrange(4, 10) if det_n <= 8 else 4), "detector-stream")
+            feed(ts_detector_stream(rng, bench, det_n, events=rng.randrange(4, 10) if det_n <= 8 else 4,
+                                    hazards=("adjacent", "gap_foreign") if rng.random() < 0.5 else ()), "detector-stream")
         # runs of matching sets split by whole sets of another kind / near-miss sets, back to back and with idle
         # gaps between the sets:  a x M, b x other, (N - a) x M  must not be reported;  then N x M must be
-        for kind in ["o"] + ["n%d" % k for k in range(1, L)]:
+        for kind in ["o"] + ["n%d" % k for k in range(0, L)] + ["f%d" % k for k in range(1, L)] + ["g%d" % k for k in range(1, L)]:
             for gapped in (False, True):
                 a = rng.randrange(1, det_n) if det_n > 1 else 1
                 ws = [NOWORD]
@@ -1504,7 +1536,7 @@ def check_C43(rep):
                 seq += [kind] + ["m"] * det_n
                 prev = None
                 for q in seq:
-                    brk_last = prev is not None and prev.startswith("n") and int(prev[1:]) == L - 1
+                    brk_last = False      # (sets may follow a breaking word directly since the detector was repaired)
                     if (gapped and prev is not None and q != "x") or brk_last:
                         ws += [NOWORD] * (rng.choice([1, 2]) if gapped else 1)
                     ws += ts_words(bench, q, rng, 9 if bench.has_cfg else 0)
